@@ -512,8 +512,9 @@ class FiniteBifield:
             A primitive element (generator) of the field.
         """
         # For our implementation, the element 'x' (represented by value 2 or 0b10)
-        # is primitive when using the standard primitive polynomials
-        return self(0b10)
+        # is primitive when using the standard primitive polynomials. It is reduced modulo the
+        # field polynomial first: in GF(2) (m = 1, modulus x + 1) the class of x is 1, not 0.
+        return self((BinaryPolynomial(0b10) % self.modulus).value)
 
     def get_all_elements(self) -> List["FiniteBifieldElement"]:
         """Get all elements of the field.
